@@ -130,7 +130,8 @@ def run(model, pid, entry="main", mem=None, a=0, x=0, y=0, p=0, fuel=20000, watc
     memh = f[12][2:] if len(f) > 12 else ""
     out = {"stop": stop, "A": int(f[2]), "X": int(f[3]), "Y": int(f[4]), "P": int(f[5]), "SP": int(f[6]),
            "cycles": int(f[7]), "steps": int(f[8]), "faults": int(f[9]), "ntrace": int(f[10]),
-           "trace": [int(t) for t in trace.split(",") if t], "mem": bytes.fromhex(memh)}
+           "trace": [int(t) for t in trace.split(",") if t], "mem": bytes.fromhex(memh),
+           "tcyc": [int(t) for t in (f[13][2:] if len(f) > 13 else "").split(",") if t]}
     return out
 
 
@@ -178,4 +179,20 @@ def repo_test_inputs():
         if s not in seen:
             seen.add(s)
             out.append(s)
+    return out
+
+
+def trace_names(model, pid, run_result):
+    """decode a trace into readable events: protected/inline lines by content, volatile accesses as (kind, address)"""
+    a = model.req("tids " + pid)
+    keys = [unhx(k) for k in a.split(" ")[1:]] if a.startswith("ok") else []
+    out = []
+    for t in run_result.get("trace", []):
+        if t >= 100000:
+            k = (t - 100000) // 65536
+            out.append(("rd", "wr", "rmw")[k - 1] + "@%d" % ((t - 100000) % 65536))
+        elif 0 < t <= len(keys):
+            out.append(keys[t - 1])
+        else:
+            out.append("?%d" % t)
     return out
